@@ -87,3 +87,7 @@ def judge (arg impl : String) : String :=
       if (impl.splitOn "UB:").length > 1 then "fail undefined behaviour" else "ok"
 
 end Driver.RiffD
+
+namespace Driver.RiffD
+def handlers : List Driver.Handler := [{ cmd := "riff", model := model, judge := judge }]
+end Driver.RiffD
